@@ -4,7 +4,7 @@ from props import srvprop
 
 
 def nontrivial(cfg, ops, results):
-    saved = set((o[1], o[-1] if o[0] == 'save_session' else o[2]) for o in ops if o[0] in ('save_session', 'session_set', 'session_replace', 'session_nested', 'session_span'))
+    saved = set((o[1], o[-1] if o[0] == 'save_session' else o[2]) for o in ops if o[0] in ('save_session', 'session_set', 'session_replace', 'session_nested', 'session_span', 'session_open'))
     recon = sum(1 for o in ops if o[0] == 'msg' and isinstance(o[2], str) and o[2][:1] == '0') >= 3
     return len(saved) >= 2 or (saved and recon)
 
@@ -17,6 +17,8 @@ def only_reads(rng, cfg, ops):
 
 def prop_sig(cfg, ops, mode):
     # a namespace-level DISCONNECT (client packet or server.disconnect) followed by a CONNECT on the same transport
+    if any(o[0] == 'session_open' for o in ops):
+        return 'c16-%s-block-left-after-the-session-ended' % mode
     ended = set()
     for o in ops:
         if o[0] == 'msg' and isinstance(o[2], str) and o[2][:1] == '1':
@@ -26,6 +28,41 @@ def prop_sig(cfg, ops, mode):
         if o[0] == 'msg' and isinstance(o[2], str) and o[2][:1] == '0' and (o[1] in ended or '*' in ended):
             return 'session-survives-namespace-reconnect-on-same-transport'
     return 'c16-%s-property' % mode
+
+
+def held_open_histories():
+    """A session() block that stays open while other things happen: the same transport's namespace is left and
+    joined again (new session id, which saves its own session), another client saves, the other namespace of the
+    transport ends; then the block is left.  Entering replaces the dict by a given one at once and leaving saves
+    that same dict, so on correct code both are `save_session(sid, new)` - which is what the model runs."""
+    out = []
+    A, B = {'user': 'alice', 'cart': 'paid'}, {'user': 'bob'}
+    c0 = lambda ns: server_hist.eio_decode(server_hist.frame(0, ns))
+    d1 = lambda ns: server_hist.eio_decode(server_hist.frame(1, ns))
+    for ns in ('/', '/chat'):
+        for ac in (False, True):
+            cfg = {'handlers': {ns: {'connect': 1}, '/b': {'connect': 1}}, 'ns_handlers': {},
+                   'behav': {1: {'arity': 2, 'actions': [], 'outcome': ('ret', None)}}, 'namespaces': [ns, '/b'],
+                   'always_connect': ac, 'serializer': 'default'}
+            start = [('eio_connect', 'e0', {'REMOTE_ADDR': 'e0'}), ('msg', 'e0', c0(ns)),
+                     ('session_open', 'S0', ns, A, 't0')]
+            tail = [('session_close', 'S0', ns, A, 't0'), ('get_session', 'S1', ns), ('get_session', 'S0', ns)]
+            # the client leaves the namespace and joins it again on the same transport; the new session saves first
+            out.append((cfg, start + [('msg', 'e0', d1(ns)), ('msg', 'e0', c0(ns)), ('save_session', 'S1', B, ns)] + tail))
+            # the same with the server ending the first session
+            out.append((cfg, start + [('disconnect', 'S0', ns), ('msg', 'e0', c0(ns)), ('save_session', 'S1', B, ns)] + tail))
+            # another client on another transport saves meanwhile
+            out.append((cfg, start + [('eio_connect', 'e1', {'REMOTE_ADDR': 'e1'}), ('msg', 'e1', c0(ns)),
+                                      ('save_session', 'S1', B, ns)] + tail))
+            # the other namespace of the same transport comes and goes meanwhile
+            out.append((cfg, start + [('msg', 'e0', c0('/b')), ('save_session', 'S1', B, '/b'), ('msg', 'e0', d1('/b'))] +
+                        [('session_close', 'S0', ns, A, 't0'), ('get_session', 'S0', ns)]))
+            # nothing in between; and a block on a session that does not exist
+            out.append((cfg, start + [('session_close', 'S0', ns, A, 't0'), ('get_session', 'S0', ns),
+                                      ('session_open', 'S7', ns, B, 't1'), ('session_close', 'S7', ns, B, 't1')]))
+            # the transport is lost while the block is open
+            out.append((cfg, start + [('close', 'e0', 'transport close'), ('session_close', 'S0', ns, A, 't0')]))
+    return out
 
 
 def run(chk):
@@ -41,7 +78,7 @@ def run(chk):
                 'disconnect / transport loss / reconnect on the same or a new transport for several clients and namespaces; '
                 'the Coq checker replays a specification store keyed by (session id, namespace); non-trivial = two distinct '
                 '(sid, namespace) pairs saved, or a save plus a reconnect; distinct by effect signature',
-                nontrivial, prop_sig, tweak=only_reads)
+                nontrivial, prop_sig, tweak=only_reads, extra_histories=held_open_histories())
 
 
 def replay(chk, data):
